@@ -1,18 +1,8 @@
 /-
-  C16: `resolve` as a whole never runs out of fuel on schemas whose type references do not start with ':'.
+  C16: `resolve` as a whole never runs out of fuel, on any schema.
 -/
 import CedarGoProofs.Lemmas.C16Walks
 namespace CedarGo.Schema
-
-/-- every type expression a namespace contains -/
-def nsTypes (d : Namespace) : List Ty :=
-  d.commonTypes.map (·.2.ty) ++
-  d.entities.flatMap (fun e => (e.2.shape.map Ty.record).toList ++ e.2.tags.toList) ++
-  d.actions.flatMap (fun a => match a.2.appliesTo with | some ap => ap.context.toList | none => [])
-
-/-- no type reference of the schema starts with a colon -/
-def SchemaRefsOk (s : Schema) : Prop :=
-  ∀ d ∈ s.bare :: s.namespaces.map (·.2), ∀ t ∈ nsTypes d, ∀ ref ∈ collectTypeRefs t, refNoColon ref
 
 theorem fbind_ne_none' {α β} (x : Fuelled α) (f : α → Fuelled β) (hx : x ≠ none)
     (hf : ∀ a, x = some (.ok a) → f a ≠ none) : fbind x f ≠ none := by
@@ -22,55 +12,6 @@ theorem fbind_ne_none' {α β} (x : Fuelled α) (f : α → Fuelled β) (hx : x 
   · simp
   · rename_i a
     exact hf a rfl
-
-theorem registerDecls_common (r r' : RState) (ns : String) (d : Namespace) (h : registerDecls r ns d = .ok r') :
-    ∀ p ∈ r'.commonTypes, p ∈ r.commonTypes ∨ p.2 ∈ d.commonTypes.map (·.2.ty) := by
-  unfold registerDecls at h
-  split at h
-  · cases h
-  · simp only [Except.ok.injEq] at h
-    subst h
-    intro p hp
-    simp only [List.mem_append, List.mem_map] at hp
-    rcases hp with hp | ⟨c, hc, rfl⟩
-    · exact Or.inl hp
-    · exact Or.inr (List.mem_map.mpr ⟨c, hc, rfl⟩)
-
-theorem foldlM_register_common : ∀ (nss : List (String × Namespace)) (r r' : RState),
-    nss.foldlM (fun r (nd : String × Namespace) => registerDecls r nd.1 nd.2) r = .ok r' →
-    ∀ p ∈ r'.commonTypes, p ∈ r.commonTypes ∨ ∃ nd ∈ nss, p.2 ∈ nd.2.commonTypes.map (·.2.ty)
-  | [], r, r', h => by
-    simp only [List.foldlM_nil, pure, Except.pure, Except.ok.injEq] at h
-    subst h
-    exact fun p hp => Or.inl hp
-  | nd :: nss, r, r', h => by
-    simp only [List.foldlM_cons, bind, Except.bind] at h
-    split at h
-    · cases h
-    · rename_i r1 h1
-      intro p hp
-      rcases foldlM_register_common nss r1 r' h p hp with h2 | ⟨nd', hnd', h2⟩
-      · rcases registerDecls_common r r1 nd.1 nd.2 h1 p h2 with h3 | h3
-        · exact Or.inl h3
-        · exact Or.inr ⟨nd, by simp, h3⟩
-      · exact Or.inr ⟨nd', by simp [hnd'], h2⟩
-
-theorem registerAll_refsOk (s : Schema) (hs : SchemaRefsOk s) (r : RState) (h : registerAll s = .ok r) : RefsOk r := by
-  constructor
-  intro c b hcb ref href
-  have hmem := lookup_some_mem_pair c b _ hcb
-  unfold registerAll at h
-  simp only [bind, Except.bind] at h
-  split at h
-  · cases h
-  · rename_i r0 h0
-    have hfold : s.namespaces.foldlM (fun r (nd : String × Namespace) => registerDecls r nd.1 nd.2) r0 = .ok r := h
-    rcases foldlM_register_common s.namespaces r0 r hfold (c, b) hmem with h1 | ⟨nd, hnd, h1⟩
-    · rcases registerDecls_common {} r0 "" s.bare h0 (c, b) h1 with h2 | h2
-      · simp at h2
-      · exact hs s.bare (by simp) b (by simp only [nsTypes, List.mem_append]; exact Or.inl (Or.inl h2)) ref href
-    · exact hs nd.2 (by simp; exact Or.inr ⟨nd.1, by simpa using hnd⟩) b
-        (by simp only [nsTypes, List.mem_append]; exact Or.inl (Or.inl h1)) ref href
 
 theorem resolveAttrsFuel_ne_none_of_record (r : RState) (fuel : Nat) (ns : String) (as : Attrs)
     (h : resolveTypeFuel r fuel ns (.record as) ≠ none) : resolveAttrsFuel r fuel ns as ≠ none := by
@@ -86,16 +27,15 @@ theorem resolveAttrsFuel_ne_none_of_record (r : RState) (fuel : Nat) (ns : Strin
     rw [hn]
 
 section
-variable (r : RState) (hok : RefsOk r) (hcyc : detectCycles r = .ok ())
-include hok hcyc
+variable (r : RState) (hcyc : detectCycles r = .ok ())
+include hcyc
 
-theorem resolveTypeFuel_total (ns : String) (t : Ty) (ht : ∀ ref ∈ collectTypeRefs t, refNoColon ref) :
+theorem resolveTypeFuel_total (ns : String) (t : Ty) :
     resolveTypeFuel r r.fuel ns t ≠ none := by
   obtain ⟨rank, hle, hpos, hdec⟩ := kahn_rank r hcyc
-  exact resolveTypeFuel_ne_none_of_rank r hok rank hpos hdec r.commonTypes.length ns t ht (fun _ _ _ _ _ => hle _)
+  exact resolveTypeFuel_ne_none_of_rank r rank hpos hdec r.commonTypes.length ns t (fun _ _ _ _ _ => hle _)
 
-theorem resolveNamespace_ne_none (ns : String) (d : Namespace) (acc : RSchema)
-    (hd : ∀ t ∈ nsTypes d, ∀ ref ∈ collectTypeRefs t, refNoColon ref) : resolveNamespace r ns d acc ≠ none := by
+theorem resolveNamespace_ne_none (ns : String) (d : Namespace) (acc : RSchema) : resolveNamespace r ns d acc ≠ none := by
   unfold resolveNamespace
   apply fbind_ne_none
   · apply fmapM_ne_none
@@ -113,10 +53,7 @@ theorem resolveNamespace_ne_none (ns : String) (d : Namespace) (acc : RSchema)
           | some as =>
             simp only
             apply resolveAttrsFuel_ne_none_of_record
-            apply resolveTypeFuel_total r hok hcyc
-            apply hd
-            simp only [nsTypes, List.mem_append, List.mem_flatMap]
-            exact Or.inl (Or.inr ⟨e, he, by simp [hsh]⟩)
+            exact resolveTypeFuel_total r hcyc _ _
         · intro shape
           apply fbind_ne_none
           · cases htg : e.2.tags with
@@ -124,10 +61,7 @@ theorem resolveNamespace_ne_none (ns : String) (d : Namespace) (acc : RSchema)
             | some t =>
               simp only
               apply fbind_ne_none
-              · apply resolveTypeFuel_total r hok hcyc
-                apply hd
-                simp only [nsTypes, List.mem_append, List.mem_flatMap]
-                exact Or.inl (Or.inr ⟨e, he, by simp [htg]⟩)
+              · exact resolveTypeFuel_total r hcyc _ _
               · intro _; simp
           · intro _; simp
     · intro _; simp
@@ -156,10 +90,7 @@ theorem resolveNamespace_ne_none (ns : String) (d : Namespace) (acc : RSchema)
                   | some t =>
                     simp only
                     apply fbind_ne_none
-                    · apply resolveTypeFuel_total r hok hcyc
-                      apply hd
-                      simp only [nsTypes, List.mem_append, List.mem_flatMap]
-                      exact Or.inr ⟨a, ha, by simp [hap, hctx]⟩
+                    · exact resolveTypeFuel_total r hcyc _ _
                     · intro rt
                       cases rt <;> simp
                 · intro _; simp
@@ -167,15 +98,14 @@ theorem resolveNamespace_ne_none (ns : String) (d : Namespace) (acc : RSchema)
       · intro _; simp
     · intro _; simp
 
-theorem resolveNamespaces_ne_none : ∀ (nss : List (String × Namespace)) (acc : RSchema),
-    (∀ nd ∈ nss, ∀ t ∈ nsTypes nd.2, ∀ ref ∈ collectTypeRefs t, refNoColon ref) → resolveNamespaces r nss acc ≠ none
-  | [], acc, _ => by simp [resolveNamespaces]
-  | (n, d) :: rest, acc, h => by
+theorem resolveNamespaces_ne_none : ∀ (nss : List (String × Namespace)) (acc : RSchema), resolveNamespaces r nss acc ≠ none
+  | [], acc => by simp [resolveNamespaces]
+  | (n, d) :: rest, acc => by
     unfold resolveNamespaces
     apply fbind_ne_none
-    · exact resolveNamespace_ne_none r hok hcyc n d _ (h (n, d) (by simp))
+    · exact resolveNamespace_ne_none r hcyc n d _
     · intro acc'
-      exact resolveNamespaces_ne_none rest acc' (fun nd hnd => h nd (by simp [hnd]))
+      exact resolveNamespaces_ne_none rest acc'
 
 end
 
